@@ -1,11 +1,19 @@
 import DnsVerif.Lemmas.EncName
 import DnsVerif.Props.C11
+import DnsVerif.Lemmas.EncLimMsg
 
-/-! # C08 — encode reports an error instead of emitting an out-of-range message (part 1)
+/-! # C08 — encode reports an error instead of emitting an out-of-range message
 
 Part 1: the name writers (every state, every name): no panic, only `Length`/`String` errors, exact
-causes. Part 2 (all values: `encode_no_panic`, `encode_limits`, `unrepresentable_err`, from
-Lemmas/EncLim*.lean) is appended when complete; until then PARTIAL. Known findings K3/K4 are recorded. -/
+causes. Part 2: for ALL values of the model's value types whose constructor shape matches the record
+table (`Shaped` — decidable, and the only premise: the Rust types make other shapes impossible; NO
+well-formedness premise, so oversized strings, RDATA, options, sections and messages are included):
+no panic, the exact error kinds with their causes, every wire limit on success, and errors for every
+unrepresentable class the property lists. `EncLim.msgSize` is the uncompressed wire size.
+Known findings (recorded, not repaired; each with a kernel-checked witness below): K3 (extended rcode
+corrupts CD), K4a (PRIVATE with a registered key), K4b (alias form drops parameters), K4c (GPOS with an
+empty string): values that encode `Ok` but do not decode to the same value — for exactly these classes the
+clause "never a message that decodes to something else or not at all" does NOT hold of the code. -/
 
 namespace C08
 
@@ -24,5 +32,66 @@ theorem nameU_error_is_length {e : Enc} {n : Name} {err : EErr} (hwf : wfName n)
 /-- known finding K3 (recorded, not repaired): an extended rcode corrupts the CD bit -/
 theorem K3_witness (f : Flags) (hop : opcodeKnown f.opcode = true) (hrc : f.rcode = 16) :
     decodeFlags (encodeFlags f) = .ok ({ f with cd := true, rcode := 0 }, C11.consumed2 (encodeFlags f)) := C11.flags_K3 f hop hrc
+
+/-! ## All values -/
+
+/-- encode never panics: names, questions, records, messages, from every encoder state -/
+theorem encode_no_panic (s : String) : EncLim.Never (.panic s) := EncLim.encode_no_panic s
+/-- `NotEnoughBytes` and `MaxRecursion` are unreachable -/
+theorem encode_ne_notEnoughBytes : EncLim.Never .notEnoughBytes := EncLim.encode_ne_notEnoughBytes
+theorem encode_ne_maxRecursion : EncLim.Never .maxRecursion := EncLim.encode_ne_maxRecursion
+
+/-- the only errors of `Dns::encode`, with their causes -/
+theorem encode_error_kinds {m : Msg} {err : EErr} (hs : EncLim.ShapedMsg m) (h : encodeDns m = .error err) :
+    (err = .string ∧ ∃ s ∈ EncLim.msgStrs m, 255 < s.length) ∨
+    (err = .aplAddressLength ∧ ∃ it ∈ EncLim.msgAplItems m,
+      128 ≤ (stripZeros it.addr).length ∧ (stripZeros it.addr).length ≤ 255 ∧ 128 ≤ it.addr.length) ∨
+    (err = .length ∧ (EncLim.CountOver m ∨ (∃ it ∈ EncLim.msgAplItems m, 255 < (stripZeros it.addr).length) ∨
+      65535 < EncLim.msgSize m)) := EncLim.encode_error_kinds hs h
+
+/-- conversely a value within the limits always encodes -/
+theorem encode_total {m : Msg} (hs : EncLim.ShapedMsg m) (hstr : ∀ s ∈ EncLim.msgStrs m, s.length ≤ 255)
+    (hapl : ∀ it ∈ EncLim.msgAplItems m, (stripZeros it.addr).length ≤ 127) (hcnt : ¬ EncLim.CountOver m)
+    (hsz : EncLim.msgSize m ≤ 65535) : ∃ b, encodeDns m = .ok b := EncLim.encode_total hs hstr hapl hcnt hsz
+
+/-- on success: at most 65,535 octets and the four counts are exactly the section sizes (not wrapped) -/
+theorem encode_limits_header {m : Msg} {b : Bytes} (hs : EncLim.ShapedMsg m) (h : encodeDns m = .ok b) :
+    b.length ≤ 65535 ∧
+    (∃ rest, b = beBytes 2 m.id ++ flagsBytes m.flags ++ beBytes 2 m.qs.length ++
+      beBytes 2 m.an.length ++ beBytes 2 m.ns.length ++ beBytes 2 m.ar.length ++ rest) ∧
+    (m.qs.length ≤ 65535 ∧ m.an.length ≤ 65535 ∧ m.ns.length ≤ 65535 ∧ m.ar.length ≤ 65535) := by
+  obtain ⟨h1, h2, h3, _⟩ := EncLim.encode_limits hs h
+  exact ⟨h1, h2, h3⟩
+
+/-- a section of more than 65,535 entries is refused before anything of it is written -/
+theorem unrepresentable_section {m : Msg} (h : EncLim.CountOver m) : encodeDns m = .error .length :=
+  EncLim.unrepresentable_err_section' h
+
+/-- a character-string of more than 255 octets anywhere in a record's checked RDATA is refused -/
+theorem unrepresentable_string {m : Msg} (hs : EncLim.ShapedMsg m)
+    (h : ∃ rr ∈ EncLim.msgRRs m, ∃ s ∈ EncLim.rdataChecked rr, 255 < s.length) : ∃ err, encodeDns m = .error err :=
+  EncLim.unrepresentable_err_string hs h
+
+/-- pointer octets written by the name writer decode to the table offset, which is below 16384 -/
+theorem pointer_offsets {off : Nat} (h : off ≤ 0x3FFF) :
+    ptrOff ((ptrBytes off)[0]'(by simp [ptrBytes])) ((ptrBytes off)[1]'(by simp [ptrBytes])) = off ∧
+    192 ≤ ((ptrBytes off)[0]'(by simp [ptrBytes])).toNat ∧
+    isPtr ((ptrBytes off)[0]'(by simp [ptrBytes])) = true := EncLim.ptrOff_ptrBytes h
+
+/-! ## Known findings (witnesses) -/
+
+theorem K4a_witness :
+    encodeRR ⟨[], 64, 1, 0, .svcb 1 [] [.priv 3 [0, 80]]⟩ = encodeRR ⟨[], 64, 1, 0, .svcb 1 [] [.port 80]⟩ ∧
+    (RR.mk [] 64 1 0 (.svcb 1 [] [.priv 3 [0, 80]])) ≠ ⟨[], 64, 1, 0, .svcb 1 [] [.port 80]⟩ := EncLim.K4a_witness
+
+theorem K4b_witness :
+    encodeRR ⟨[], 64, 1, 0, .svcb 0 [[97]] [.port 80]⟩ = encodeRR ⟨[], 64, 1, 0, .svcb 0 [[97]] []⟩ ∧
+    encodeRR ⟨[], 64, 1, 0, .svcb 0 [[97]] []⟩ = .ok [0, 0, 64, 0, 1, 0, 0, 0, 0, 0, 5, 0, 0, 1, 97, 0] := EncLim.K4b_witness
+
+theorem K4c_witness :
+    EncLim.Shaped ⟨[], 27, 1, 0, .fields [.bytes [], .bytes [49], .bytes [50]]⟩ ∧
+    encodeRR ⟨[], 27, 1, 0, .fields [.bytes [], .bytes [49], .bytes [50]]⟩ =
+      .ok [0, 0, 27, 0, 1, 0, 0, 0, 0, 0, 5, 0, 1, 49, 1, 50] ∧
+    decodeRR [0, 0, 27, 0, 1, 0, 0, 0, 0, 0, 5, 0, 1, 49, 1, 50] = .error .gpos := EncLim.K4c_gpos_empty
 
 end C08
